@@ -30,6 +30,10 @@ R4 (K1) the serve loops push protocol.unused_data back into the medium after the
 R5 (K4) ConventionalResponseHandler.read_streamed_body advances the decoder only through single _read_more() steps between
    drains of _bytes_parts (no multi-step reader such as _wait_for_response_end inside the generator), and yields every
    drained part.
+R8 (typestate of the stream element) in both body-stream encoders (_send_chunks for v1/v2, ProtocolThreeResponder.send_response
+   for v3) the loop element may be an in-band FailedSmartServerResponse; no use of it as bytes (len(), writer argument,
+   concatenation) is reachable from the loop header except through the false edge of the isinstance(.., Failed..) test or the
+   true edge of isinstance(.., bytes): an error raised mid-stream reaches the client as error status + structure + end.
 Does not decide: independence from read segmentation for all chunkings (dynamic behaviour of the state machines).
 """
 
@@ -171,7 +175,48 @@ def run(ctx):
     ok = len(hs) == 1 and any(norm(c) == "self.accept_bytes(b'')" for c in calls_in(ast.Module(body=hs[0].body, type_ignores=[]))) and any(call_attr(c) == "protocol_error" for c in calls_in(ast.Module(body=hs[0].body, type_ignores=[])))
     ctx.check("R7-restart-through-guard", f"{PF}:ProtocolThreeDecoder.accept_bytes", ok, "after a handler error the decoder reports it and re-enters self.accept_bytes(b'') — the guarded method, so a second handler error in the same buffer is handled the same way", message="the restart after a message-handler error no longer goes through self.accept_bytes: a second handler error raised while draining the same buffer (unknown verb: once at the args, once at the end marker) escapes, the connection is dropped and the next request is lost")
 
+    # ---- R8: an in-band error chunk of a body stream is recognised before the chunk is treated as bytes -----------------
+    n_enc = 0
+    for q in ("_send_chunks", "ProtocolThreeResponder.send_response"):
+        fe = repo.func(PF, q)
+        g = build_cfg(fe)
+
+        def _inst(n, cls_tail):
+            e = n.ast
+            return isinstance(e, ast.Call) and call_name(e) == "isinstance" and len(e.args) == 2 and isinstance(e.args[0], ast.Name) and norm(e.args[1]).split(".")[-1] == cls_tail
+
+        failed = [n for n in g.nodes if n.kind == "test" and _inst(n, "FailedSmartServerResponse")]
+        ctx.require(len(failed) == 1, f"{q}: expected one isinstance(<chunk>, FailedSmartServerResponse) test in the stream loop, found {len(failed)}")
+        var = failed[0].ast.args[0].id
+        loops = [h for h in g.loops_of(failed[0].id) if g.nodes[h].kind == "for"]
+        ctx.require(bool(loops), f"{q}: the error-chunk test is not inside the stream loop")
+        header = loops[-1]
+        ctx.require(var in {n_.id for n_ in ast.walk(g.nodes[header].ast.target) if isinstance(n_, ast.Name)}, f"{q}: {var} is not the stream loop's element")
+        cut = {(n.id, b, l) for n in failed for (b, l) in g.succ[n.id] if l == "F"}
+        cut |= {(n.id, b, l) for n in g.nodes if n.kind == "test" and _inst(n, "bytes") and n.ast.args[0].id == var for (b, l) in g.succ[n.id] if l == "T"}
+
+        def _as_bytes(n):
+            if n.kind == "for" or n.ast is None:
+                return False
+            root = n.expr() if n.kind != "test" else n.ast
+            if root is None:
+                return False
+            for e in ast.walk(root):
+                if isinstance(e, ast.Call) and call_name(e) not in ("isinstance", "repr") and call_attr(e) not in ("_trace", "mutter") and any(isinstance(a, ast.Name) and a.id == var for a in e.args):
+                    return True
+                if isinstance(e, ast.BinOp) and any(isinstance(a, ast.Name) and a.id == var for a in (e.left, e.right)):
+                    return True
+            return False
+
+        users = set(g.find(_as_bytes))
+        ctx.require(bool(users), f"{q}: no use of the stream element {var} as bytes found")
+        unsafe = sorted(g.copy_without(cut).reach([header]) & users)
+        n_enc += 1
+        ctx.check("R8-error-chunk-recognised-first", f"{PF}:{q}", not unsafe, f"every use of the stream element `{var}` as bytes (len, writer argument, concatenation) lies behind the test that it is not a FailedSmartServerResponse", construct=g.nodes[unsafe[0]].text() if unsafe else "", message=f"`{g.nodes[unsafe[0]].text() if unsafe else ''}` handles `{var}` as bytes on a path where it may still be an in-band FailedSmartServerResponse: the encoder fails (or writes garbage) instead of sending the error status, the structure and the end marker, and the client waits for the rest of a response that never ends")
+    ctx.require(n_enc == 2, "stream encoders not found")
+
 MUTANTS = [
+    Mutant("stream byte counter moved above the error-chunk test", PF, "                    if isinstance(chunk, request.FailedSmartServerResponse):\n                        self._write_error_status()\n                        self._write_structure(chunk.args)\n                        break\n                    num_bytes += len(chunk)\n", "                    num_bytes += len(chunk)\n                    if isinstance(chunk, request.FailedSmartServerResponse):\n                        self._write_error_status()\n                        self._write_structure(chunk.args)\n                        break\n", expect="R8-error-chunk-recognised-first"),
     Mutant("big writes bypass the encoder buffer", PF, "        self._buf.append(bytes)\n        self._buf_len += len(bytes)\n", "        if len(bytes) > self.BUFFER_SIZE:\n            self._real_write_func(bytes)\n            return\n        self._buf.append(bytes)\n        self._buf_len += len(bytes)\n", expect="R6-encoder-single-writer"),
     Mutant("decoder restart bypasses its own guard", PF, "            # So we call accept_bytes again to restart it.\n            self.accept_bytes(b\"\")\n", "            _StatefulDecoder.accept_bytes(self, b\"\")\n", expect="R7-restart-through-guard"),
     Mutant("encoder writes an unknown kind byte", PF, "        self._write_func(b\"s\")\n", "        self._write_func(b\"x\")\n", expect="R1-part-kinds"),
